@@ -92,6 +92,21 @@ func storeContract(t *testing.T, kind string, p mast.Persist) {
 
 func TestBounded_C18(t *testing.T) {
 	dir := t.TempDir()
+	// whatever is already under a name (left by another writer or an older release), a successful
+	// Store ends with exactly the bytes given
+	for name, data := range payloads() {
+		stale := filepath.Join(dir, name)
+		os.WriteFile(stale, []byte("stale-content-of-another-writer"), 0644)
+		p := NewPersistForPath(dir)
+		if err := p.Store(fctx, name, data); err != nil {
+			fViolation(t, "C18", "file-store-over-existing", "file backend: Store(%q) over an existing file failed: %v", name, err)
+			continue
+		}
+		if got, err := p.Load(fctx, name); err != nil || !bytes.Equal(got, data) {
+			fViolation(t, "C18", "file-store-over-existing", "file backend: a file with other content existed under %q; after a successful Store of %d bytes, Load returns %d bytes (err %v)", name, len(data), len(got), err)
+		}
+		os.Remove(stale)
+	}
 	storeContract(t, "file", NewPersistForPath(dir))
 	storeContract(t, "memory", mast.NewInMemoryStore())
 	// backend errors reach the caller
